@@ -13,7 +13,7 @@ vars == <<mode, ty, hist>>
 LVars == {"a", "b", "c"}
 IdxKinds == {"m1", "zero", "last", "len"}
 ListOps ==
-    [op : {"push", "reverse", "clear", "map", "filter", "len", "indexof_hit", "indexof_miss", "concat", "inner"}, x : LVars]
+    [op : {"push", "reverse", "clear", "map", "filter", "len", "indexof_hit", "indexof_miss", "concat", "inner", "filterto", "mapto"}, x : LVars]
     \cup [op : {"remove", "read", "set", "opset", "opsub"}, x : LVars, i : IdxKinds]
     \cup [op : {"join", "eq", "joinalias"}, x : {"a", "b"}, y : LVars] \cup [op : {"join", "eq"}, x : {"c"}, y : LVars]
     \cup [op : {"alias", "clone"}, y : {"a", "b"}]          \* c = y   /   c = y.clone()
@@ -68,6 +68,10 @@ ListStmts(o, n) ==
       [] o.op = "clear" -> <<ExprS(MCall(V(o.x), "clear", <<>>))>>
       [] o.op = "map" -> <<Print(MCall(V(o.x), "map", <<MapFn>>))>>
       [] o.op = "filter" -> <<Print(MCall(V(o.x), "filter", <<FilterFn>>))>>
+      \* c = x.filter(f) / x.map(f): a new list, also when x is empty - later writes to either must not show in the other
+      [] o.op = "filterto" -> <<Let("c", MCall(V(o.x), "filter", <<FilterFn>>))>>
+      [] o.op = "mapto" -> IF ty \in {"int", "str"} THEN <<Let("c", MCall(V(o.x), "map", <<MapFn>>))>>
+                           ELSE <<Let("c", MCall(V(o.x), "filter", <<Fn("all", <<P("q", ElemTy)>>, "bool", <<Ret(B(TRUE))>>)>>))>>
       [] o.op = "len" -> <<Print(MCall(V(o.x), "len", <<>>))>>
       [] o.op = "indexof_hit" -> Pre(2) \o <<Print(MCall(V(o.x), "index_of", <<Arg(2)>>))>>
       [] o.op = "indexof_miss" -> Pre(98) \o <<Print(MCall(V(o.x), "index_of", <<Arg(98)>>))>>
